@@ -394,6 +394,19 @@ def enumerate_faults(case, ref, d):
         for o in case["ops"]:
             allf.append(dict(type="user", after=o["id"], site="user"))
         allf.append(dict(type="user", after="end", site="user"))
+    # hard kills (SIGKILL / power button): at a seam event the process dies, no handler
+    # or finalizer touches the disk afterwards; sampled, the commit phase over-weighted
+    n_kill = int(spec.get("kills", 0))
+    if n_kill and events:
+        evs = [ev for ev in events if ev[1] != EPILOGUE]
+        tgt = [ev for ev in evs if "result.tar" in str(ev[4])]
+        picks = [d.pick("fault:kill", evs) for _ in range(n_kill)] + [d.pick("fault:killtarget", tgt) for _ in range(n_kill) if tgt]
+        seen_k = set()
+        for ev in picks:
+            if (ev[1], ev[2]) in seen_k:
+                continue
+            seen_k.add((ev[1], ev[2]))
+            allf.append(dict(type="fs", op=ev[1], local=ev[2], kind="kill", site="kill@" + site_class(ev).split("@")[1]))
     # interrupts: sampled lines (count known from the counting run)
     nlines = ref.get("lines") or 0
     n_int = int(spec.get("interrupts", 0))
@@ -415,7 +428,7 @@ def enumerate_faults(case, ref, d):
         classes = sorted(byclass)
         if len(classes) > count:
             # not enough budget for every class: a seeded subset, target-related ones first
-            pri = [c for c in classes if "target" in c or c in ("compute", "user", "interrupt", "worker")]
+            pri = [c for c in classes if "target" in c or c in ("compute", "user", "interrupt", "worker") or c.startswith("kill@")]
             rest_c = d.shuffle("strat:classes", [c for c in classes if c not in pri])
             classes = (d.shuffle("strat:pri", pri) + rest_c)[:count]
         for cls in classes:
@@ -506,7 +519,7 @@ def judge_failure(case, fault, r, pre, post, ref_new, stats, stage=""):
                 False,
             )
         if post != pre:
-            if fault["type"] == "interrupt" and post == ref_new:
+            if (fault["type"] == "interrupt" or fault.get("kind") == "kill") and post == ref_new:
                 # the interrupt arrived after the commit point: the run effectively completed
                 stats["committed_interrupts"] += 1
                 return None, True
@@ -625,7 +638,7 @@ def execute(case):
                 continue
             # --- a second fault in the SAME session, on an event that only exists
             # because of the first one (error handling, fallbacks, clean-up code)
-            if fault["type"] == "fs" and not fault.get("also") and r["fs_fired"]:
+            if fault["type"] == "fs" and fault.get("kind") != "kill" and not fault.get("also") and r["fs_fired"]:
                 tp = float(spec.get("tail_prob", 0.0))
                 if "target" in fault["site"]:
                     tp = min(1.0, tp * 4)
